@@ -120,6 +120,9 @@ def run(name, cfg, lg):
             fn, kw, _ = G.build(name, c, list(range(n)), "nd", secs=[0] * n, lon=lg["lon"], lat=lg["lat"])
         else:
             fn, kw, _ = G.build(name, c, lg["x"], "nd", z=lg.get("z"), secs=[0] * len(lg["x"]))
+            if lg.get("carrier") in ("u2", "i1"):
+                # narrow integer storage: values held as uint16 / int8 (transformations keep them inside the type's range)
+                kw["inp"] = np.array([int(v) for v in lg["x"]], dtype="uint16" if lg["carrier"] == "u2" else "int8")
             if lg.get("carrier") == "ma":
                 # masked array whose masked slots keep the SAME finite payload whatever the transformation
                 miss = [v in (NAN, None) for v in lg["x"]]
@@ -181,6 +184,12 @@ def variants(name, cfg, lg):
     rel = T[name]["rel"]
     if lg.get("long") and not lg.get("perturb_at"):
         rel = tuple(r for r in rel if r != "local")
+    if lg.get("only") == "voff_extra":
+        # narrow integer carriers: only the listed offsets (the others / negation would leave the type's range)
+        for c in lg.get("voff_extra", ()):
+            if all(s in (NAN, None) or (0 <= s + c <= 65535 if lg["carrier"] == "u2" else -128 <= s + c <= 127) for s in lg["x"]):
+                yield f"value-offset{c:+g}", dict(lg, x=sym_add(lg["x"], c)), "same", None
+        return
     if "voff" in rel:
         for c in VOFF + tuple(lg.get("voff_extra", ())):
             yield f"value-offset{c:+g}", dict(lg, x=sym_add(lg["x"], c)), "same", None
@@ -296,6 +305,11 @@ def xl_cases(name):
         yield x, T[name]["cfgs"][1], [0, 1, 700, 1023, 1024, 1499], big   # windowed range (exact)
         yield x, T[name]["cfgs"][0], [0, 1, 700, 1023, 1024, 1499], ()    # windowed std: small offsets only
     elif name in ("spike_test", "rate_of_change_test", "density_inversion_test", "gross_range_test", "valid_range_test"):
+        if name in ("spike_test", "rate_of_change_test"):
+            # counts stored as uint16 near 40000 (sums of neighbours exceed the type) and as int8 near 100
+            for car, base, offs in (("u2", 40000.0, (-20000.0, 20000.0, -39990.0)), ("i1", 100.0, (-90.0, -200.0, 20.0))):
+                for seq in alpha.all_seqs((0.0, 1.0, 3.0, 4.0), 3, 4):
+                    yield [base + v for v in seq], T[name]["cfgs"][0], None, offs, car
         x = list(alpha.xl(tuple(T[name]["al"]), 1500, 3))
         for cfg in T[name]["cfgs"]:
             yield x, cfg, [0, 1, 511, 512, 1023, 1024, 1025, 1498, 1499], big
@@ -321,9 +335,13 @@ def run_task(task, acc):
     if ci < 0:
         series = [[], alpha.debruijn(tuple(spec["al"]), 3) * 3]
         cfgs = spec["cfgs"]
-        for x, cfg, perturb_at, voff_extra in xl_cases(name):
+        for item in xl_cases(name):
+            x, cfg, perturb_at, voff_extra = item[:4]
             lg = logical(name, list(x))
             lg["long"] = True
+            if len(item) > 4:
+                lg["carrier"] = item[4]
+                lg["only"] = "voff_extra"
             if perturb_at:
                 lg["perturb_at"] = perturb_at
             if voff_extra:
